@@ -645,11 +645,17 @@ theorem advance_inv (cfg : Config) (hirr : cfg.matches .irreversible = true) (a 
     (advanceAcc cfg a b none).failed = false ∧ (advanceAcc cfg a b none).failAt = none ∧
     ∃ t Q', (advanceAcc cfg a b none).evs = a.evs ++ t ∧
       (⟨a.st.db.libRef.id, Q⟩ : CS).run t = some ⟨(advanceAcc cfg a b none).st.db.libRef.id, Q'⟩ ∧
-      Inv (advanceAcc cfg a b none).st Q' := by
+      Inv (advanceAcc cfg a b none).st Q' ∧
+      ((advanceAcc cfg a b none).st.db = a.st.db ∨
+        ∃ R er, (advanceAcc cfg a b none).st.db = (a.st.db.moveLIB R).purgeBeforeLIB cfg.kept ∧
+          a.st.db.find R.id = some er ∧ er.blk.num = R.num ∧ a.st.db.libRef.num < R.num) := by
   have triv : ∀ r : Acc, r = a → r.failed = false ∧ r.failAt = none ∧
-      ∃ t Q', r.evs = a.evs ++ t ∧ (⟨a.st.db.libRef.id, Q⟩ : CS).run t = some ⟨r.st.db.libRef.id, Q'⟩ ∧ Inv r.st Q' := by
+      ∃ t Q', r.evs = a.evs ++ t ∧ (⟨a.st.db.libRef.id, Q⟩ : CS).run t = some ⟨r.st.db.libRef.id, Q'⟩ ∧ Inv r.st Q' ∧
+      (r.st.db = a.st.db ∨
+        ∃ R er, r.st.db = (a.st.db.moveLIB R).purgeBeforeLIB cfg.kept ∧
+          a.st.db.find R.id = some er ∧ er.blk.num = R.num ∧ a.st.db.libRef.num < R.num) := by
     intro r hr; subst hr
-    exact ⟨hf, hn, [], Q, by simp, rfl, hI⟩
+    exact ⟨hf, hn, [], Q, by simp, rfl, hI, Or.inl rfl⟩
   have hlibT : a.st.db.hasLIB = true := hasLIB_of_id _ hI.libNe
   unfold advanceAcc
   simp only [hf, Bool.false_eq_true, if_false, hls, hlibT, Bool.not_true]
@@ -739,7 +745,8 @@ theorem advance_inv (cfg : Config) (hirr : cfg.matches .irreversible = true) (a 
       { withDb db' a.st with lastLIBSeen := seen } := by
     rw [processStalled_st, hseen]
   have hlibfin : db'.libRef = R := by rw [← hdb']; rfl
-  refine ⟨hn2.1, hn2.2.1, irrEvents cfg seg b.ref (fun i => (a.st.db.find i).map (·.blk)) ++ t2, q2, ?_, ?_, ?_⟩
+  refine ⟨hn2.1, hn2.2.1, irrEvents cfg seg b.ref (fun i => (a.st.db.find i).map (·.blk)) ++ t2, q2, ?_, ?_, ?_,
+    Or.inr ⟨R, er, by rw [hstfin, ← hdb']; rfl, hfer, hnumR, by omega⟩⟩
   · rw [ht2, hn1.2.2, List.append_assoc]
   · rw [run_append, hstfin]
     simp only [withDb, hlibfin]
